@@ -1628,9 +1628,15 @@ class Container:
         # only rounding (absolute: less than the internal precision in the unit the solvent is stored in, or
         # relative: in the last digits of a float) is not "below"
         solvent_unit = 'U' if solvent.is_enzyme() else config.moles_storage_unit
+        # (... nor is what one stored digit of each substance already in the container is worth: 1e-10 umol of an
+        # antibody is 1.5e-8 uL)
+        stored_decimals = sum(abs(Unit.convert_from(substance, 10 ** -config.internal_precision,
+                                                    'U' if substance.is_enzyme() else config.moles_storage_unit,
+                                                    quantity_unit)) for substance in self.contents)
         if (round(Unit.convert(solvent, f"{required_quantity} {quantity_unit}", solvent_unit),
                   config.internal_precision) < 0
-                and round(required_quantity / quantity, config.internal_precision) < 0):
+                and round(required_quantity / quantity, config.internal_precision) < 0
+                and required_quantity < -stored_decimals):
             raise ValueError("Container already holds more than the desired quantity.")
         required_quantity = max(required_quantity, 0.)
         result = self._add(solvent, f"{required_quantity} {quantity_unit}")
